@@ -6,6 +6,7 @@ so the very same harness function runs
   plain CPython, also under the repository's own interpreter).
 """
 import json
+import logging
 import os
 import sys
 
@@ -50,6 +51,51 @@ def unjson(v):
     if isinstance(v, list):
         return [unjson(x) for x in v]
     return v
+
+
+class LogTrap(logging.Handler):
+    """collects what bacpypes logs at ERROR level (exceptions its loops swallow)"""
+
+    def __init__(self):
+        logging.Handler.__init__(self, level=logging.ERROR)
+        self.records = []
+        self.intolerance = False
+
+    def reset(self):
+        self.records = []
+        self.intolerance = False
+
+    def classify(self, exc):
+        pass
+
+    def emit(self, record):
+        try:
+            exc = record.exc_info[1] if record.exc_info else None
+            if exc is None and record.args:
+                args = record.args if isinstance(record.args, tuple) else (record.args,)
+                for a in args:
+                    if isinstance(a, BaseException):
+                        exc = a
+            if exc is not None:
+                self.classify(exc)
+            self.records.append((record.name, type(exc).__name__ if exc is not None else None))
+        except Exception:   # pragma: no cover
+            pass
+
+
+LOGTRAP = None
+
+
+def install_logtrap(trap=None):
+    """route bacpypes' own error logging into a per-path list (and keep it off stderr)"""
+    global LOGTRAP
+    if LOGTRAP is None:
+        LOGTRAP = trap or LogTrap()
+        lg = logging.getLogger("bacpypes")
+        lg.addHandler(LOGTRAP)
+        lg.propagate = False
+        logging.getLogger().addHandler(logging.NullHandler())
+    return LOGTRAP
 
 
 class Draws:
@@ -130,6 +176,11 @@ class Draws:
     def note(self, **kw):
         self.notes.update(kw)
 
+    def errors_logged(self):
+        """[(logger, exception type name)] that bacpypes logged at ERROR level on this
+        path (its event loop and state machines swallow exceptions and log them)"""
+        return list(LOGTRAP.records) if LOGTRAP is not None else []
+
 
 class ConcreteDraws(Draws):
     """Replays a flat list of concrete draws in order, checking names and bounds."""
@@ -199,6 +250,7 @@ def run_concrete(fn, params, draws, twin=False):
     """plain execution of a harness on concrete draws.
     returns dict(outcome=ok|violation|reached|harness_error, violations=[...])"""
     d = ConcreteDraws(draws, twin=twin)
+    install_logtrap().reset()
     out = {"outcome": "ok", "violations": []}
     try:
         fn(d, **params)
